@@ -144,12 +144,25 @@ def real_incoherent(expr):
     import sympy as sp
 
     out = []
+    if expr.has(sp.re) or expr.has(sp.im):
+        # SymPy rewrote Abs(x**3 ...) into re/im form (repeated CG(0,0,0,0,0,0) factors): not a
+        # structure of ampform; the component is then only covered by the numeric oracle
+        return None
     for term in sp.Add.make_args(expr):
         n = 1
-        if isinstance(term, sp.Mul) and len(term.args) == 2 and term.args[0].is_Integer and term.args[0] > 0:
-            n, term = int(term.args[0]), term.args[1]
-        if isinstance(term, sp.Pow) and term.exp == 2 and isinstance(term.base, sp.Abs):
-            out += [_canon_sign(real_terms(term.base.args[0]))] * n
+        inners = []
+        ok = True
+        # SymPy's Abs may pull factors of known sign out of the modulus: |a b|^2 -> |a|^2 b^2
+        for f in sp.Mul.make_args(term):
+            if f.is_Integer and f > 0:
+                n *= int(f)
+            elif isinstance(f, sp.Pow) and f.exp == 2:
+                inners.append(f.base.args[0] if isinstance(f.base, sp.Abs) else f.base)
+            else:
+                ok = False
+        if ok and inners:
+            inner = inners[0] if len(inners) == 1 else sp.expand(sp.Mul(*inners))
+            out += [_canon_sign(real_terms(inner))] * n
         else:
             out.append((("unexpected", sp.srepr(term)[:200]),))
     return sorted(out, key=str)
@@ -305,6 +318,9 @@ def diff(obs, blk):
         return {"what": "component names (I)", "only_real": sorted(set(obs["compI"]) - set(mi))[:1],
                 "only_model": sorted(set(mi) - set(obs["compI"]))[:1]}
     for n in mi:
+        if obs["compI"][n] is None:
+            obs["unparsed_I"] = obs.get("unparsed_I", 0) + 1
+            continue
         real_i = [x for x in obs["compI"][n] if x]
         if mi[n] != real_i:
             return {"what": "component I", "name": n, "real": str(real_i)[:300], "model": str(mi[n])[:300]}
